@@ -194,6 +194,7 @@ func c12(x *runCtx) {
 	x.c.flush()
 	c12Typed(x)
 	c12Readers(x, "C12")
+	c12Reuse(x, "C12")
 }
 
 // adversarial returns hand-built hostile shapes: nested length-inflated arrays/maps,
